@@ -9,6 +9,7 @@ import (
 	"math"
 	"errors"
 	"sync"
+	"sort"
 	//"fmt"
 )
 
@@ -372,7 +373,6 @@ func (self *Engine) Propose(passport Passport,flights [] Flight, tripEnd EpochTi
 	ts := MaxEpochTime
 	te := tripEnd
 	for i:=0; i < len(flights); i++ {
-		travelled += flights[i].Distance
 		distance += flights[i].Distance + self.Administrator.params.TaxiOverhead
 		if flights[i].Start < ts {
 			ts=flights[i].Start
@@ -380,6 +380,16 @@ func (self *Engine) Propose(passport Passport,flights [] Flight, tripEnd EpochTi
 		if flights[i].End  > te {
 			te=flights[i].End
 		}
+	}
+
+	// Add up the distance travelled newest flight first. This is the order in which the
+	// trip history adds up a flown trip, so that the exact comparison made when
+	// the promise is kept holds whatever the order the flights are given in
+	newestFirst := make([]Flight,len(flights))
+	copy(newestFirst,flights)
+	sort.SliceStable(newestFirst, func(a,b int) bool { return newestFirst[a].Start > newestFirst[b].Start })
+	for i:=0; i < len(newestFirst); i++ {
+		travelled += newestFirst[i].Distance
 	}
 
 	// Check proposed trip is not too far in the future
